@@ -268,6 +268,95 @@ theorem msgAmount_exact (amountBytes : Bytes) (d : Nat) (h : beToNat amountBytes
   unfold msgAmount
   rw [h, Nat.mul_div_cancel _ (by decide), Nat.mod_eq_of_lt hd]
 
+/-! ### selection of the batch: each deposit at most once -/
+
+section Selection
+
+theorem lookup_cons (st : Store) (k k' : Key) (v : PStatus) :
+    lookup ((k, v) :: st) k' = if k = k' then v else lookup st k' := by
+  unfold lookup
+  by_cases h : k = k' <;> simp [h]
+
+/-- every selected proposal was executable in the store the loop started from, and its key differs from every key the
+    store already holds as pending -/
+theorem forExec_mem (st : Store) (ps sel : List BProp) (h : (forExec st ps).1 = some sel) :
+    ∀ p ∈ sel, executable (lookup st p.key) = true := by
+  induction ps generalizing st sel with
+  | nil => simp only [forExec, Option.some.injEq] at h; subst h; simp
+  | cons q qs ih =>
+    unfold forExec at h
+    cases hq : lookup st q.key <;> simp only [hq] at h
+    case readErr => cases h
+    case writeErr => cases h
+    case pending => exact ih st sel h
+    case executed => exact ih st sel h
+    all_goals
+      cases hr : (forExec ((q.key, .pending) :: st) qs).1 with
+      | none => simp [hr] at h
+      | some sel' =>
+        simp only [hr, Option.map_some, Option.some.injEq] at h
+        subst h
+        intro p hp
+        rcases List.mem_cons.1 hp with rfl | hp
+        · simp [executable, hq]
+        · have := ih _ sel' hr p hp
+          rw [lookup_cons] at this
+          by_cases hk : q.key = p.key
+          · simp [hk, executable] at this
+          · simpa [hk] using this
+
+/-- **C16 (each deposit at most once per batch), all stores and batches.** Whatever the store holds and however often a
+    deposit occurs in the batch, the selection contains no deposit twice, only deposits that were missing/failed, in batch
+    order.  (A second copy later in the batch finds the pending mark of the first.) -/
+theorem forExec_P16sel (st : Store) (ps sel : List BProp) (h : (forExec st ps).1 = some sel) : P16sel st ps sel := by
+  refine ⟨?_, forExec_mem st ps sel h, ?_⟩
+  · induction ps generalizing st sel with
+    | nil => simp only [forExec, Option.some.injEq] at h; subst h; simp
+    | cons q qs ih =>
+      unfold forExec at h
+      cases hq : lookup st q.key <;> simp only [hq] at h
+      case readErr => cases h
+      case writeErr => cases h
+      case pending => exact ih st sel h
+      case executed => exact ih st sel h
+      all_goals
+        cases hr : (forExec ((q.key, .pending) :: st) qs).1 with
+        | none => simp [hr] at h
+        | some sel' =>
+          simp only [hr, Option.map_some, Option.some.injEq] at h
+          subst h
+          simp only [List.map_cons, List.nodup_cons]
+          refine ⟨?_, ih _ sel' hr⟩
+          intro hmem
+          obtain ⟨p, hp, hk⟩ := List.mem_map.1 hmem
+          have := forExec_mem _ qs sel' hr p hp
+          rw [lookup_cons] at this
+          simp [hk, executable] at this
+  · induction ps generalizing st sel with
+    | nil => simp only [forExec, Option.some.injEq] at h; subst h; simp
+    | cons q qs ih =>
+      unfold forExec at h
+      cases hq : lookup st q.key <;> simp only [hq] at h
+      case readErr => cases h
+      case writeErr => cases h
+      case pending => exact (ih st sel h).cons q
+      case executed => exact (ih st sel h).cons q
+      all_goals
+        cases hr : (forExec ((q.key, .pending) :: st) qs).1 with
+        | none => simp [hr] at h
+        | some sel' =>
+          simp only [hr, Option.map_some, Option.some.injEq] at h
+          subst h
+          exact (ih _ sel' hr).cons_cons q
+
+/-- the same deposit three times in one batch (and one already executed): selected once; the transaction pays it once -/
+example :
+    let d (n a : Nat) : BProp := ⟨(1, 2, n), ⟨a, some [0]⟩⟩
+    (forExec [((1, 2, 9), .executed)] [d 7 100, d 8 50, d 7 100, d 9 30, d 7 100]).1 = some [d 7 100, d 8 50] := by
+  decide
+
+end Selection
+
 /-! ### wrap points (outside `WF`), stated rather than hidden -/
 
 /-- a proposal amount ≥ 2^63 becomes a negative output value (`int64` cast) -/
